@@ -24,7 +24,7 @@ from common import qc, cq, bf, cbf, coq_list
 from harness import isect_common as ic
 from harness.c11 import Keyed, kinds_label, core_of, outcome, arcarc_tolerated
 
-GEN_GROUPS = ['GenBoxes', 'GenIsect']
+GEN_GROUPS = ['GenBoxes', 'GenIsect', 'GenBezierN']
 AGREE = ['Isect.v']
 
 OK_A = r'''
@@ -130,11 +130,13 @@ def miss_key(d1, d2, what, tt=None):
     var = ic.detect_variants()
     if core == 'subdivision':
         if what == 'missed' and (degenerate_axis(d1) or degenerate_axis(d2)):
-            return 'subdivision-prunes-zero-width-box'
+            return ic.pinned_key('subdivision-prunes-zero-width-box', var['bx_fixed'])
         if what == 'missed' and tt is not None and (ic.is_dyadic(tt[0]) or ic.is_dyadic(tt[1])):
             # the crossing sits exactly on a subdivision boundary of one curve: the boxes of the
             # neighbouring sub-curves only TOUCH there (overlap width 0): same rule, touching flavour
-            return 'subdivision-prunes-zero-width-box'
+            return ic.pinned_key('subdivision-prunes-zero-width-box', var['bx_fixed'])
+        if what == 'duplicate':
+            return ic.pinned_key('subdivision-duplicate-crossing', var['mg_fixed'])
         if what == 'missed':
             # registered for the pinned remove-while-iterating loop only
             return ic.pinned_key('subdivision-missed-crossing', var['rm_fixed'])
@@ -268,7 +270,7 @@ def run_A(rep, K, tmp, items, secs):
                 any(abs(x[0] - tt[0]) < 2e-3 and abs(x[1] - tt[1]) < 2e-3 for x in res):
             # reported, but further than 1e-4 away: the absolute stopping tolerance (box area 1e-12)
             # is too coarse for curves of this size (same class as in C11)
-            key = 'subdivision-residual-small-scale'
+            key = ic.pinned_key('subdivision-residual-small-scale', ic.detect_variants()['rel_fixed'])
         K.add(key,
               'C12: constructed transversal crossing at (t1,t2) = (%.9g, %.9g) of a %s pair (%s) is %s; returned %s'
               % (tt[0], tt[1], kinds_label(d1, d2), m['family'],
@@ -504,14 +506,14 @@ def run_C(rep, K, tmp, rng, n, n_poly, secs, only=None):
                 key = miss_key(p1d[i], p2d[j], 'missed' if not segnear else 'duplicate', (t1, t2))
                 if key.startswith('subdivision-missed-crossing') and ic.pair_size(seg1, seg2) < 0.1 and \
                         any(abs(h[0] - t1) < 2e-3 and abs(h[1] - t2) < 2e-3 for h in segres):
-                    key = 'subdivision-residual-small-scale'
+                    key = ic.pinned_key('subdivision-residual-small-scale', ic.detect_variants()['rel_fixed'])
                 msg = 'seg1.intersect(seg2) itself reports it %d times' % len(segnear)
             elif dup and not ic.detect_variants()['idx_fixed']:
                 key = 'path-intersect-index-duplicate-segment'
                 msg = ('the path traverses an equal segment twice: the entry of the later traversal coincides with the earlier '
                        'one (same T from list.index, same point) and is removed as a joint redundancy')
             elif dup:
-                key = 'path-joint-dedup-removes-repeated-traversal'
+                key = ic.pinned_key('path-joint-dedup-removes-repeated-traversal', ic.detect_variants()['jd_fixed'])
                 msg = ('the path traverses an equal segment twice: the entry of the later traversal has its own T (positions are '
                        'enumerated) but the same POINT as the earlier one, and is removed as a joint redundancy')
             else:
@@ -618,7 +620,7 @@ def run(rep, tier, seed, replay=None):
         var = ic.detect_variants()
         rep.cov['implementation_variants'] = {k: v for k, v in var.items() if k != 'notes'}
         rep.notes += var['notes']
-        boost = 2 if (info['agree_failed'] or info['untranslated'].keys() - {'gen_bezier_by_line_2'}) else 1
+        boost = 2 if (info['agree_failed'] or info['untranslated'].keys() - {'gen_bezier_by_line_2', 'gen_box_extent'}) else 1
         if replay:
             r = json.load(open(replay))['replay']
             if r.get('kind') == 'pair':
